@@ -235,31 +235,60 @@ def run(ctx: Ctx, rs: RuleSet, tier: str):
           for a in ext_asg)
   if not ok:
     # the same sequence written as one concatenation:
-    # <body>.extend(<first> + [<update>] + <second>), with `<first> + <second>`
-    # only where there is no update
+    # <body>.extend(<first> + [<update>] + <second>) / [*first, *opt, *second],
+    # with the update left out only where there is none
     from fdlstatic import dispatch as _dp
 
     def _chain(e):
+      """Operands of a concatenation, as (text, kind) with kind 'list' (a
+      list-valued place), 'one' ([x]), 'opt' ([] if x is None else [x])."""
       if isinstance(e, ast.BinOp) and isinstance(e.op, ast.Add):
         return _chain(e.left) + _chain(e.right)
-      return [e]
+      if isinstance(e, ast.List) and e.elts and all(
+          isinstance(x, ast.Starred) for x in e.elts):
+        return [y for x in e.elts for y in _chain(x.value)]
+      if isinstance(e, ast.List) and len(e.elts) == 1 and not isinstance(
+          e.elts[0], ast.Starred):
+        return [(unparse(e.elts[0]), 'one')]
+      if isinstance(e, ast.IfExp):
+        t, a_, b_ = e.test, e.body, e.orelse
+        if isinstance(t, ast.Compare) and len(t.ops) == 1 and isinstance(
+            t.comparators[0], ast.Constant) and (
+                t.comparators[0].value is None):
+          some, none = (b_, a_) if isinstance(t.ops[0], ast.Is) else (a_, b_)
+          if isinstance(none, ast.List) and not none.elts and isinstance(
+              some, ast.List) and len(some.elts) == 1 and unparse(
+                  some.elts[0]) == unparse(t.left):
+            return [(unparse(t.left), 'opt')]
+        return [(unparse(e), 'other')]
+      if isinstance(e, (ast.Name, ast.Attribute)):
+        return [(unparse(e), 'list')]
+      return [(unparse(e), 'other')]
 
-    for n, r, x in ext:
-      rd = roles.reaching(g, n, x)
-      if not rd or any(k != 'value' for _, k, _ in rd):
-        continue
-      chains = [(dn, _chain(v)) for dn, _, v in rd]
-      full = [c_ for _, c_ in chains if len(c_) == 3 and isinstance(
-          c_[0], ast.Name) and isinstance(c_[2], ast.Name) and isinstance(
-              c_[1], ast.List) and len(c_[1].elts) == 1 and isinstance(
-                  c_[1].elts[0], ast.Name)]
+    all_ext = []
+    for n in g.nodes():
+      for e in cfg_lib.walk_node(g, n):
+        if isinstance(e, ast.Call) and isinstance(
+            e.func, ast.Attribute) and e.func.attr == 'extend' and isinstance(
+                e.func.value, ast.Name) and len(e.args) == 1:
+          all_ext.append((n, e.func.value.id, e.args[0]))
+    for n, r, xa in all_ext:
+      if isinstance(xa, ast.Name):
+        rd = roles.reaching(g, n, xa.id)
+        if not rd or any(k != 'value' for _, k, _ in rd):
+          continue
+        chains = [(dn, _chain(v)) for dn, _, v in rd]
+      else:
+        chains = [(n, _chain(xa))]
+      full = [c_ for _, c_ in chains if len(c_) == 3 and c_[0][1] == 'list' and
+              c_[2][1] == 'list' and c_[1][1] in ('one', 'opt')]
       if not full:
         continue
-      d_, u_, a_ = full[0][0].id, full[0][1].elts[0].id, full[0][2].id
+      d_, u_, a_ = full[0][0][0], full[0][1][0], full[0][2][0]
 
       def _no_update(t, u_=u_):
-        if isinstance(t, ast.Compare) and len(t.ops) == 1 and isinstance(
-            t.left, ast.Name) and t.left.id == u_ and isinstance(
+        if isinstance(t, ast.Compare) and len(t.ops) == 1 and unparse(
+            t.left) == u_ and isinstance(
                 t.comparators[0], ast.Constant) and (
                     t.comparators[0].value is None):
           if isinstance(t.ops[0], ast.Is):
@@ -271,8 +300,8 @@ def run(ctx: Ctx, rs: RuleSet, tier: str):
       with_update = _dp.reach_atoms(g, _no_update)
       good = True
       for dn, c_ in chains:
-        texts = [unparse(e) for e in c_]
-        if texts == [d_, f'[{u_}]', a_]:
+        texts = [x[0] for x in c_]
+        if texts == [d_, u_, a_] and c_[1][1] in ('one', 'opt'):
           continue
         if texts == [d_, a_] and dn not in with_update:
           continue
